@@ -96,9 +96,20 @@ func genRedefScenario(r *rng) (*scenario, *filterSpec, *filterSpec) {
 	target := &fnSpec{ID: 0, Ins: tIns, Script: "ok", OForm: "pos", HasErr: r.chance(1, 2)}
 	target.Form = formFor(r, c, tIns)
 	nOut := r.intn(3)
+	// one scenario in ten: a target without any result, reached only through converters (the input filter admits the
+	// far ends of the chains only), the converter next to the target failing when the redefined function is called
+	forced := !sc.Subs && r.chance(1, 10)
+	var farEnds []int
+	if forced {
+		nOut, target.HasErr = 0, false
+	}
 	for i := 0; i < nOut; i++ {
 		target.Outs = append(target.Outs, lab{Ty: (i*2 + r.intn(2)) % 6})
 		target.Dyn = append(target.Dyn, -1)
+	}
+	if nOut > 0 && r.chance(1, 3) {
+		// results as a struct, by value or through a pointer: the redefined function has the same result types
+		target.OForm = []string{"struct", "ptr"}[r.intn(2)]
 	}
 	sc.Funcs = append(sc.Funcs, target)
 	// chains of single-input converters leading to the target's requirements
@@ -107,6 +118,10 @@ func genRedefScenario(r *rng) (*scenario, *filterSpec, *filterSpec) {
 	for _, l := range tIns {
 		cur := l
 		depth := r.intn(5)
+		if forced && depth == 0 {
+			depth = 1
+		}
+		first := true
 		for d := 0; d < depth && len(sc.Funcs) < 9; d++ {
 			src := mkLab()
 			if src == cur {
@@ -114,7 +129,15 @@ func genRedefScenario(r *rng) (*scenario, *filterSpec, *filterSpec) {
 			}
 			f := c.newConv(r, sc, []lab{cur}, []lab{src})
 			f.Script, f.Once = "ok", r.chance(1, 8)
-			if r.chance(1, 6) {
+			pf := 6
+			if nOut == 0 && !target.HasErr {
+				pf = 2 // a target without results: the redefined function has an error result of its own to report this through
+			}
+			if forced && first {
+				pf = 1
+			}
+			first = false
+			if r.chance(1, pf) {
 				// fails the first time its body runs: the planning run never runs it, the call of the redefined
 				// function does and must report exactly this error
 				f.Script, f.HasErr = "fail@0", true
@@ -127,7 +150,10 @@ func genRedefScenario(r *rng) (*scenario, *filterSpec, *filterSpec) {
 			}
 			cur = src
 		}
-		if r.chance(1, 3) {
+		if cur != l {
+			farEnds = append(farEnds, cur.Ty)
+		}
+		if !forced && r.chance(1, 3) {
 			sc.Opts = append(sc.Opts, sc.supplyFor(r, c, cur, &vid, true))
 			sc.Opts[len(sc.Opts)-1].Ty = cur.Ty
 		}
@@ -168,6 +194,9 @@ func genRedefScenario(r *rng) (*scenario, *filterSpec, *filterSpec) {
 			}
 		}
 	}
+	if forced && len(farEnds) > 0 {
+		fin = &filterSpec{nest: r.intn(3), tys: farEnds}
+	}
 	if r.chance(1, 3) {
 		fout = &filterSpec{}
 		for _, t := range types {
@@ -185,10 +214,11 @@ func (sc *scenario) callArgs(withLogger bool) []am.Arg {
 	if withLogger {
 		args = append(args, am.Logger(capLogger{sc}))
 	}
-	for _, o := range sc.Opts[sc.Defaults:] {
-		args = append(args, sc.mkArg(o))
+	var idx []int
+	for i := sc.Defaults; i < len(sc.Opts); i++ {
+		idx = append(idx, i)
 	}
-	return args
+	return append(args, sc.argsOf(idx)...)
 }
 
 // redefineOnce runs Funcs[0].Redefine and returns the protocol lines plus the new function.
@@ -206,11 +236,21 @@ func (sc *scenario) redefineOnce(fin, fout *filterSpec) ([]string, *am.Func) {
 	var nf *am.Func
 	var err error
 	var pan interface{}
+	setsBefore := sc.vsetsSnapshot()
 	func() {
 		defer func() { pan = recover() }()
 		nf, err = sc.Funcs[0].fn.Redefine(args...)
 	}()
 	lines := append([]string(nil), sc.events...)
+	// the value sets of the target and of every converter object must be what they were: Redefine plans with copies
+	sets := "intact"
+	for i, a := range sc.vsetsSnapshot() {
+		if i < len(setsBefore) && a != setsBefore[i] {
+			sets = fmt.Sprintf("changed_f%d", i)
+			break
+		}
+	}
+	lines = append(lines, "rdsets "+sets)
 	switch {
 	case pan != nil:
 		lines = append(lines, "rdres panic "+classifyPanic(pan))
@@ -230,6 +270,40 @@ func (sc *scenario) redefineOnce(fin, fout *filterSpec) ([]string, *am.Func) {
 	sortStrings(ls)
 	lines = append(lines, "rdres ok inputs="+strings.Join(ls, ","))
 	return lines, nf
+}
+
+// vsetsSnapshot renders, per function object, the values its input and output sets currently hold.
+func (sc *scenario) vsetsSnapshot() []string {
+	var out []string
+	for _, f := range sc.Funcs {
+		var b strings.Builder
+		func() {
+			defer func() {
+				if recover() != nil {
+					b.WriteString("!")
+				}
+			}()
+			if f.fn == nil {
+				return
+			}
+			for _, vs := range []*am.ValueSet{f.fn.Input(), f.fn.Output()} {
+				if vs == nil {
+					b.WriteString("nil;")
+					continue
+				}
+				for _, v := range vs.Values() {
+					if v.Value.IsValid() {
+						fmt.Fprintf(&b, "%d,", vidOf(v.Value))
+					} else {
+						b.WriteString("-,")
+					}
+				}
+				b.WriteString(";")
+			}
+		}()
+		out = append(out, b.String())
+	}
+	return out
 }
 
 func genRedef(w *bufio.Writer, r *rng, id int) {
@@ -552,13 +626,26 @@ func genHist(w *bufio.Writer, r *rng, id int) {
 	for k := 0; k < n; k++ {
 		switch x := r.intn(12); {
 		case x < 3:
-			fmt.Fprintf(w, "run %d redefine\n", k)
+			// half of the Redefine operations carry an input filter, so that planning runs through the converters
+			var fin *filterSpec
+			if r.chance(1, 2) {
+				fin = &filterSpec{nest: r.intn(3)}
+				for _, i := range valueOpts {
+					if r.chance(2, 3) {
+						fin.tys = append(fin.tys, sc.Opts[i].Ty)
+					}
+				}
+				for j := 0; j < 2; j++ {
+					fin.tys = append(fin.tys, r.intn(10))
+				}
+			}
+			fmt.Fprintf(w, "run %d redefine\nrdfin %s\n", k, fin.String())
 			w.Flush()
 			before := 0
 			for _, f := range sc.Funcs {
 				before += f.execs
 			}
-			lines, _ := sc.redefineOnce(nil, nil)
+			lines, _ := sc.redefineOnce(fin, nil)
 			for _, l := range lines {
 				fmt.Fprintln(w, l)
 			}
